@@ -375,9 +375,15 @@ func (resp *Response) Read(b *bufio.Reader) error {
 
 		case "ERROR", "SERVER_ERROR", "CLIENT_ERROR":
 			if len(parts) > 1 {
-				resp.Msg = parts[1]
+				// the whole message, not only its first word
+				resp.Msg = strings.Join(parts[1:], " ")
 			}
 			logger.Errorf("error: %v", resp)
+
+		case "VERSION":
+			if len(parts) > 1 {
+				resp.Msg = strings.Join(parts[1:], " ")
+			}
 
 		default:
 			// try to convert to int
